@@ -621,7 +621,13 @@ def stream_fsm(ctx):
     R.check(n >= 8, rule, 'bumble.avdtp.Stream | command handlers', f'{n} acceptor-side command handlers', f'only {n} command handlers found')
 
 
+def identity_rule(ctx):
+    from ..generic_rules import identity_compare
+    identity_compare(ctx, 'C19.identity', ['bumble.sdp', 'bumble.avdtp', 'bumble.avctp', 'bumble.avrcp', 'bumble.a2dp'])
+
+
 RULES = [
+    ('C19.identity', identity_rule),
     ('C19.sdp-all', sdp_all),
     ('C19.sdp-client-state', sdp_client_state),
     ('C19.sdp-budget', sdp_budget),
